@@ -14,6 +14,7 @@ import (
 	netv1 "k8s.io/api/networking/v1"
 	apiequality "k8s.io/apimachinery/pkg/api/equality"
 	"k8s.io/apimachinery/pkg/apis/meta/v1/unstructured"
+	"k8s.io/apimachinery/pkg/runtime"
 	gatewayv1beta1 "sigs.k8s.io/gateway-api/apis/v1beta1"
 
 	"verifharness/lib"
@@ -106,10 +107,8 @@ func Residue(w *World, sc *Scenario, base *Baseline) []string {
 	}
 	out = append(out, virtualServiceResidue(w, sc, base)...)
 	for _, o := range w.Store.PeekAll("horizontalpodautoscalers") {
-		if u, ok := o.(*unstructured.Unstructured); ok {
-			if name, _, _ := unstructured.NestedString(u.Object, "spec", "scaleTargetRef", "name"); name != AppName {
-				out = append(out, "HPA target is still "+name+" (the user's is "+AppName+")")
-			}
+		if name := hpaTargetName(o); name != AppName {
+			out = append(out, "HPA target is still "+name+" (the user's is "+AppName+")")
 		}
 	}
 	if v := ViewWorkload(w, sc); v != nil {
@@ -380,6 +379,17 @@ type FinalizerMonitor struct {
 
 func (FinalizerMonitor) ID() string { return "C18" }
 
+// hpaTargetName reads spec.scaleTargetRef.name of a stored HorizontalPodAutoscaler, whatever Go type the store
+// keeps it in.
+func hpaTargetName(o runtime.Object) string {
+	m, err := runtime.DefaultUnstructuredConverter.ToUnstructured(o)
+	if err != nil {
+		return "?"
+	}
+	name, _, _ := unstructured.NestedString(m, "spec", "scaleTargetRef", "name")
+	return name
+}
+
 func hasFinalizer(list []string, f string) bool {
 	for _, x := range list {
 		if x == f {
@@ -471,6 +481,17 @@ func (m FinalizerMonitor) OnWrite(x *Ctx, w *Write) {
 			x.Count("C18 batchrelease finalizer removals judged")
 			if v := ViewWorkload(x.W, sc); v != nil && v.Controlled {
 				x.Violate("C18/early/batchrelease-finalizer", "BatchRelease finalizer removed while the workload still carries the control-info annotation")
+			}
+			// a blue-green release disables the user's HorizontalPodAutoscaler; only the BatchRelease controller knows
+			// how to give it back
+			for _, o := range x.W.Store.PeekAll("horizontalpodautoscalers") {
+				if name := hpaTargetName(o); name != AppName {
+					sig := "C18/early/batchrelease-finalizer/hpa-still-disabled"
+					if getWorkload(x.W, sc) == nil {
+						sig += "/after-the-workload-was-deleted" // nothing left to scale, but the user's object stays modified
+					}
+					x.Violate(sig, "BatchRelease finalizer removed while the HorizontalPodAutoscaler still targets "+name+" (the user's target is "+AppName+")")
+				}
 			}
 			// generated canary Deployments are only collectable once their own finalizer is gone
 			for _, o := range x.W.Store.PeekAll("deployments") {
